@@ -198,7 +198,8 @@ func genMainCase(t *rapid.T) interface{} {
 	for i := 0; i < ns; i++ {
 		switch rapid.IntRange(0, 9).Draw(t, "step") {
 		case 0, 1, 2:
-			c.Steps = append(c.Steps, MStep{Kind: "grow", N: rapid.IntRange(1, 4).Draw(t, "g")})
+			// mostly a few blocks at a time; now and then the connector falls far behind (one page is 100 blocks)
+			c.Steps = append(c.Steps, MStep{Kind: "grow", N: rapid.SampledFrom([]int{1, 1, 2, 2, 3, 4, 30, 101, 150, 250, 420}).Draw(t, "g")})
 		case 3, 4, 5, 6:
 			c.Steps = append(c.Steps, MStep{Kind: "relay"})
 		case 7, 8:
